@@ -752,7 +752,7 @@ fn c14(tier: &str) -> Vec<String> {
 }
 
 fn c17(_tier: &str) -> Vec<String> {
-    ["A", "B", "C", "D", "E", "F", "G", "U"].iter().map(|c| format!("probe:cfg={}", c)).collect()
+    ["A", "B", "C", "D", "E", "F", "G", "H", "T", "U"].iter().map(|c| format!("probe:cfg={}", c)).collect()
 }
 
 fn c20(tier: &str) -> Vec<String> {
